@@ -571,7 +571,7 @@ def interp_case(draw, shard, tier):
                | gd.uniform_int(0, (n - 1) * step))
     method = draw(st.sampled_from(["lagrange", "lagrange", "linear"]))
     order = draw(st.integers(2, 8))
-    op = draw(st.sampled_from(["interpolate", "propagate", "iter"]))
+    op = draw(st.sampled_from(["interpolate", "propagate", "iter", "iter-window", "ephem-window"]))
     el = draw(go.elements(hyperbolic=False, emax_ell=0.5, rp_range=(1.05, 4.0)))
     return dict(us=us, n=n, step=step, labels=labels, X=X, off=off, method=method, order=order, op=op, el=el)
 
@@ -596,10 +596,14 @@ def run_interp(case, labels, X):
         orbs.append(Orbit(cart, date_of(us + k * step, L), "cartesian", "EME2000", None))
     eph = Ephem(orbs, method=case["method"], order=case["order"])
     when = date_of(us + _inside(case, X, labels), X)
-    if case["op"] == "iter":
+    if case["op"] in ("iter", "iter-window", "ephem-window"):
         stop = date_of(us + (len(labels) - 1) * step - case.get("stop_shift", 0), X)
         out = []
-        for o in eph.iter(start=when, stop=stop, step=timedelta(microseconds=step // 2 + 1)):
+        # "-window": a part of the table at its own sampling (no step), bounds labelled X
+        it = {"iter": lambda: eph.iter(start=when, stop=stop, step=timedelta(microseconds=step // 2 + 1)),
+              "iter-window": lambda: eph.iter(start=when, stop=stop),
+              "ephem-window": lambda: iter(eph.ephem(start=when, stop=stop))}[case["op"]]()
+        for o in it:
             out.append((np.asarray(o.base, float), o.date))
             if len(out) > 3 * len(labels):
                 break
@@ -614,6 +618,9 @@ def check_interp(case):
     X = lab(us + case["off"], case["X"])
     if case["op"] == "iter" and inexact(X):
         X = "TT"  # the grid start + k * step is reading arithmetic: uniform scales only (C03)
+    if case["op"].endswith("-window") and inexact(X, *labels) and case["off"] % case["step"] == 0:
+        # a bound exactly on a node whose label, or whose own, is exact to 1 us only may fall on either side of it
+        case = dict(case, off=case["off"] + 10)
     case = dict(case, off=_inside(case, X, labels), stop_shift=10 if inexact(X, *labels) else 0)
     with cloned(case):
         got = run_interp(case, labels, X)
